@@ -1122,6 +1122,71 @@ Proof.
     destruct a2, a3, a5, a6, a9; vm_compute; reflexivity.
 Qed.
 
+(* ---- owner discipline: additional plain reads of the owner-private data *)
+Lemma peek_inv pk b c ch : ok b = true -> (forall p, pk p = true -> holds_data p = true) -> Inv b c -> Inv b (step_peek pk b c ch).
+Proof.
+  intros Hok Hpk I. unfold step_peek. destruct (Nat.eqb (snd ch) peek_arg); [|apply step_inv; auto].
+  destruct (nth_error (ths c) (fst ch)) as [[p tv]|] eqn:Et; [|exact I].
+  destruct (pk p) eqn:Ep; [|exact I].
+  pose proof (m_own b c I (Th p tv) (nth_error_In _ _ Et) (Hpk _ Ep)) as Hfr. cbn [ttv] in Hfr.
+  destruct I as [Is Iu Io Irc Itb]. constructor; cbn [ths mm na_read am nts race]; auto.
+  rewrite Irc. cbn. apply negb_false_iff, Nat.leb_le. exact Hfr.
+Qed.
+
+Theorem p3_owner_access_race_free pk b : ok b = true -> (forall p, pk p = true -> holds_data p = true) ->
+  forall n sched, race (mm (run_peek pk b sched (init n))) = false.
+Proof.
+  intros Hok Hpk n sched. apply (m_race b).
+  assert (G : forall c, Inv b c -> Inv b (run_peek pk b sched c)).
+  { induction sched as [|ch t IH]; intros c I; cbn; auto. apply IH, peek_inv; auto. }
+  apply G, inv_init.
+Qed.
+
+(* a plain read of the owner-private data by a thread that is only trying to lock races, whatever the memory orders *)
+Definition wit_pre_T0 : list (nat * nat) := [(0,0); (0,0)].
+Definition wit_pre_TS : list (nat * nat) := [(0,0); (1,1); (0,0)].
+
+Lemma run_peek_app pk b s1 s2 c : run_peek pk b (s1 ++ s2) c = run_peek pk b s2 (run_peek pk b s1 c).
+Proof. unfold run_peek. apply fold_left_app. Qed.
+
+Lemma run_peek_plain pk b s : Forall (fun ch => Nat.eqb (snd ch) peek_arg = false) s ->
+  forall c, run_peek pk b s c = run b s c.
+Proof.
+  induction 1 as [|ch t H _ IH]; intros c; [reflexivity|]. cbn. unfold step_peek at 2. rewrite H. apply IH.
+Qed.
+
+(* state just before the peek: thread 1 is in the given pc and its view of DATA is older than the owner's write *)
+Definition stale_at (b : bits) (pre : list (nat * nat)) (p : pc) : bool :=
+  let c1 := run b pre (init 2) in
+  match nth_error (ths c1) 1 with
+  | Some (Th q tv) => (match q, p with T0, T0 | TS, TS => true | _, _ => false end) && race (na_read tv (mm c1) DATA)
+  | None => false end.
+
+Lemma stale_T0 b : stale_at b wit_pre_T0 T0 = true.
+Proof. destruct b as [a1 a2 a3 a4 a5 a6 a7 a8 a9]. destruct a1, a2, a3, a4, a5, a6, a7, a8, a9; vm_compute; reflexivity. Qed.
+Lemma stale_TS b : stale_at b wit_pre_TS TS = true.
+Proof. destruct b as [a1 a2 a3 a4 a5 a6 a7 a8 a9]. destruct a1, a2, a3, a4, a5, a6, a7, a8, a9; vm_compute; reflexivity. Qed.
+
+Lemma peek_races pk b pre p : Forall (fun ch => Nat.eqb (snd ch) peek_arg = false) pre ->
+  stale_at b pre p = true -> pk p = true ->
+  race (mm (run_peek pk b (pre ++ [(1, peek_arg)]) (init 2))) = true.
+Proof.
+  intros Hpre Hs Hpk. rewrite run_peek_app, (run_peek_plain pk b pre Hpre). cbn [run_peek fold_left].
+  unfold step_peek. cbn [snd fst]. rewrite Nat.eqb_refl. unfold stale_at in Hs.
+  destruct (nth_error (ths (run b pre (init 2))) 1) as [[q tv]|]; [|discriminate].
+  apply andb_true_iff in Hs. destruct Hs as [Hq Hr].
+  assert (q = p) as -> by (destruct q, p; try discriminate; reflexivity).
+  rewrite Hpk. exact Hr.
+Qed.
+
+Theorem p3_nonowner_access_races pk b : pk T0 = true \/ pk TS = true ->
+  exists sched, race (mm (run_peek pk b sched (init 2))) = true.
+Proof.
+  intros [H|H]; eexists.
+  - apply (peek_races pk b wit_pre_T0 T0); auto using stale_T0. repeat constructor.
+  - apply (peek_races pk b wit_pre_TS TS); auto using stale_TS. repeat constructor.
+Qed.
+
 Theorem p3_exact : forall b,
   (ok b = true -> forall n sched, race (mm (run b sched (init n))) = false) /\
   (ok b = false -> exists n sched, race (mm (run b sched (init n))) = true).
